@@ -9,6 +9,10 @@
 //  sub-check "transform"  Repetition::transform(m, refl, rot), m in {1,2,-1}, refl in {F,T},
 //                         rot in {0, pi/2, 0.6}: the denoted multiset (read from the struct fields of
 //                         the transformed repetition) is the image under the linear map, 1e-12 relative
+//  "copied first"         all three sub-checks are also run on repetitions that went through a copy before being
+//                         enumerated / transformed / applied: Repetition::copy_from, a copy of a copy, each element
+//                         kind's copy_from (source cleared or destroyed before the copy is used, so that shared
+//                         storage is an ASan report), and the source is compared before / after.
 //  sub-check "apply"      apply_repetition on polygon, 2-element flexpath (varying widths/offsets, raith
 //                         base-cell name), 2-element robustpath (segment + cubic, linear interpolations),
 //                         label, reference by cell pointer, reference by name - each carrying one GDSII
@@ -91,6 +95,15 @@ static void build_alphabet(bool thorough) {
             ALPHA.push_back(s);
         }
     }
+    {   // explicit lists of 4, 5 and 6 vectors (negative, zero and duplicate entries): a fixed family instead of 9^n lists
+        std::vector<Vec2> seq = {{-1, 2}, {2, 2}, {0, 0}, {2, -1}, {-1, 2}, {-1, -1}};
+        std::vector<Vec2> distinct = {{-1, -1}, {-1, 0}, {0, 2}, {2, -1}, {2, 0}, {2, 2}};
+        for (int len = 4; len <= 6; len++) {
+            RepSpec a; a.kind = 3; a.offs.assign(seq.begin(), seq.begin() + len); ALPHA.push_back(a);
+            RepSpec b; b.kind = 3; b.offs.assign(seq.rbegin(), seq.rbegin() + len); ALPHA.push_back(b);
+            RepSpec c; c.kind = 3; c.offs.assign(distinct.begin(), distinct.begin() + len); ALPHA.push_back(c);
+        }
+    }
     std::vector<double> ec = {-2, 0, 1, 1.5};
     int cmax = thorough ? 5 : 3;
     for (int kind = 4; kind <= 5; kind++)
@@ -106,10 +119,10 @@ static void build_alphabet(bool thorough) {
         }
 }
 static std::string alphabet_desc(bool thorough) {
-    return thorough ? "None; rectangular columns,rows in {0,1,2,3,4,5,7} x spacing components in {-2,-0.5,0,1.5,3}; regular same counts x v1,v2 in {(1,0),(1,1),(-2,1),(0,-1.5),(0,0),(-1,-1),(2.5,-0.5)}; explicit: every list of <= 4 offsets from {-1,0,2}^2; "
+    return thorough ? "None; rectangular columns,rows in {0,1,2,3,4,5,7} x spacing components in {-2,-0.5,0,1.5,3}; regular same counts x v1,v2 in {(1,0),(1,1),(-2,1),(0,-1.5),(0,0),(-1,-1),(2.5,-0.5)}; explicit: every list of <= 4 offsets from {-1,0,2}^2 plus 9 fixed lists of 4, 5 and 6 offsets; "
                       "explicit_x / explicit_y: every list of <= 5 coordinates from {-2,0,1,1.5}"
                     : "None; rectangular columns,rows in {0,1,2,3,5} x spacing components in {-2,0,1.5}; regular same counts x v1,v2 in {(1,0),(1,1),(-2,1),(0,-1.5),(0,0)}; explicit: every list of <= 3 offsets from {-1,0,2}^2 (duplicates, (0,0) "
-                      "and the empty list included); explicit_x / explicit_y: every list of <= 3 coordinates from {-2,0,1,1.5}";
+                      "and the empty list included) plus 9 fixed lists of 4, 5 and 6 offsets; explicit_x / explicit_y: every list of <= 3 coordinates from {-2,0,1,1.5}";
 }
 
 // the harness's own enumeration of the denoted multiset, zero vector first (None: no set; handled apart)
@@ -190,19 +203,21 @@ static void bbox(const std::vector<Vec2>& v, Vec2& lo, Vec2& hi) {
 
 // ------------------------------------------------------------------------------------------ "set"
 static const Vec2 SENTINEL = {12345.5, -54321.25};
-static void check_set(int ri) {
+// via: how the repetition under test was obtained ("direct" = the struct the list was set on)
+static void check_set_on(int ri, const Repetition& r, const std::string& via) {
     const RepSpec& s = ALPHA[ri];
     SpecInfo inf = info_of(s);
     std::vector<Vec2> own = own_set(s);
-    Repetition r;
-    make_rep(s, r);
     JFields tags = base_tags(s, inf);
-    std::string cs = jobj({{"repetition", spec_json(s)}, {"denoted_set", vecs_json(own)}});
+    tags.push_back({"via", jstr(via)});
+    std::string cs = jobj({{"repetition", spec_json(s)}, {"obtained", jstr(via)}, {"denoted_set", vecs_json(own)}});
     std::string rp = fmt("sub=set rep=%d", ri);
     R->count("cases");
+    R->count("set_cases");
+    if (via != "direct") R->count("set_cases_on_copies");
     if (inf.card != 1) R->count("nontrivial");
     uint64_t cnt = r.get_count();
-    if (VERBOSE) fprintf(stderr, "repetition %s\n  denoted set %s\n  get_count = %llu\n", spec_json(s).c_str(), vecs_json(own).c_str(), (unsigned long long)cnt);
+    if (VERBOSE) fprintf(stderr, "repetition %s obtained: %s\n  denoted set %s\n  get_count = %llu\n", spec_json(s).c_str(), via.c_str(), vecs_json(own).c_str(), (unsigned long long)cnt);
     if (s.kind == 0) {
         R->outcome("set", fmt("None: get_count=%llu", (unsigned long long)cnt));
     } else if (cnt != own.size()) {
@@ -261,13 +276,14 @@ static void check_set(int ri) {
         }
         ex.clear();
     }
-    r.clear();
 }
 
 // ------------------------------------------------------------------------------------------ "transform"
 static const double MAGS[] = {1, 2, -1};
 static const double ROTS[] = {0, M_PI / 2, 0.6};
-static void check_transform(int ri, int only_t) {
+// copied: transform a Repetition::copy_from copy whose source has been cleared (kinds with a list only:
+// for the others the copy is a plain field copy already judged by the set checks)
+static void check_transform(int ri, int only_t, bool copied = false) {
     const RepSpec& s = ALPHA[ri];
     SpecInfo inf = info_of(s);
     std::vector<Vec2> own = own_set(s);
@@ -278,6 +294,14 @@ static void check_transform(int ri, int only_t) {
         double rot = ROTS[t % 3];
         Repetition r;
         make_rep(s, r);
+        if (copied) {
+            Repetition c;
+            memset(&c, 0, sizeof c);
+            c.copy_from(r);
+            r.clear();
+            r = c;
+            R->count("transform_cases_on_copies");
+        }
         r.transform(m, refl, rot);
         std::vector<Vec2> got = dump::own_offsets(r);  // field walk of the transformed struct
         if (r.type == RepetitionType::None) got.clear();
@@ -300,8 +324,9 @@ static void check_transform(int ri, int only_t) {
         tags.push_back({"magnification", jnum(m)});
         tags.push_back({"x_reflection", jbool(refl)});
         tags.push_back({"rotation", jnum(rot)});
-        std::string cs = jobj({{"repetition", spec_json(s)}, {"magnification", jnum(m)}, {"x_reflection", jbool(refl)}, {"rotation", jnum(rot)}, {"after", dump::repetition(r)}});
-        std::string rp = fmt("sub=transform rep=%d t=%d", ri, t);
+        tags.push_back({"via", jstr(copied ? "Repetition::copy_from (source cleared)" : "direct")});
+        std::string cs = jobj({{"repetition", spec_json(s)}, {"obtained", jstr(copied ? "Repetition::copy_from (source cleared)" : "direct")}, {"magnification", jnum(m)}, {"x_reflection", jbool(refl)}, {"rotation", jnum(rot)}, {"after", dump::repetition(r)}});
+        std::string rp = fmt("sub=transform rep=%d t=%d cp=%d", ri, t, (int)copied);
         if (!ok) R->violation("transform", "multiset", tags, cs, "transformed repetition denotes " + vecs_json(got) + ", image of the original set under the linear map is " + vecs_json(want), rp);
         else if (s.kind != 0 && cnt != own.size()) R->violation("transform", "count", tags, cs, fmt("get_count() after transform = %llu, before %zu", (unsigned long long)cnt, own.size()), rp);
         else if (!got.empty() && !(fabs(got[0].x) <= 1e-12 && fabs(got[0].y) <= 1e-12)) R->violation("transform", "zero-first", tags, cs, "first vector after transform is not the zero vector", rp);
@@ -575,6 +600,60 @@ struct RefOps {
     static bool geometry(T&, std::vector<GeoPoly>&) { return false; }
 };
 
+// "copied first": the repetition is judged on the struct the list was set on, on a Repetition::copy_from
+// copy, on a copy of a copy (intermediate copy cleared), on the source after its copies were cleared, and
+// on the repetition of an element copied with each element kind's copy_from (source element destroyed
+// first).  Storage shared between a copy and its source shows up as an ASan report here.
+template <class Ops>
+static void check_set_via_element(int ri) {
+    typedef typename Ops::T T;
+    T* e = Ops::build(0);
+    make_rep(ALPHA[ri], Ops::rep(*e));
+    std::string before = dump::repetition(Ops::rep(*e));
+    T* c = (T*)allocate_clear(sizeof(T));
+    c->copy_from(*e);
+    if (dump::repetition(Ops::rep(*e)) != before) {
+        JFields tags = base_tags(ALPHA[ri], info_of(ALPHA[ri]));
+        tags.push_back({"via", jstr(std::string(Ops::name()) + "::copy_from")});
+        R->violation("set", "copy-changed-source", tags, jobj({{"repetition", spec_json(ALPHA[ri])}}), "the source element's repetition changed when the element was copied: " + dump::repetition(Ops::rep(*e)), fmt("sub=set rep=%d", ri));
+    }
+    Ops::destroy(e);
+    check_set_on(ri, Ops::rep(*c), std::string(Ops::name()) + "::copy_from (source element destroyed)");
+    Ops::destroy(c);
+}
+static void check_set(int ri) {
+    const RepSpec& s = ALPHA[ri];
+    Repetition r;
+    make_rep(s, r);
+    check_set_on(ri, r, "direct");
+    std::string before = dump::repetition(r);
+    auto src_check = [&](const char* cls, const char* when) {
+        if (dump::repetition(r) == before) return;
+        JFields tags = base_tags(s, info_of(s));
+        tags.push_back({"via", jstr("Repetition::copy_from")});
+        R->violation("set", cls, tags, jobj({{"repetition", spec_json(s)}}), std::string("the source repetition changed ") + when + ": " + dump::repetition(r), fmt("sub=set rep=%d", ri));
+    };
+    Repetition c, cc;
+    memset(&c, 0, sizeof c);
+    memset(&cc, 0, sizeof cc);
+    c.copy_from(r);
+    src_check("copy-changed-source", "when it was copied");
+    check_set_on(ri, c, "Repetition::copy_from");
+    cc.copy_from(c);
+    c.clear();
+    src_check("clearing-copy-disturbed-source", "when its copy was cleared");
+    check_set_on(ri, cc, "copy of a copy (intermediate copy cleared)");
+    cc.clear();
+    check_set_on(ri, r, "source after its copies were cleared");
+    r.clear();
+    check_set_via_element<PolyOps>(ri);
+    check_set_via_element<FlexOps>(ri);
+    check_set_via_element<RobustOps>(ri);
+    check_set_via_element<LabelOps>(ri);
+    check_set_via_element<RefOps<false>>(ri);
+}
+
+static const char* COPIED_NAME[] = {"direct", "copy_from (source destroyed)", "copy of a copy (intermediate destroyed, source kept)"};
 // run f in a forked child; "" if it returned normally, else what happened (+ its stderr in err)
 static std::string isolated(const std::function<void()>& f, std::string& err) {
     std::string efile = R->scratch + fmt("/iso.%d.err", (int)getpid());
@@ -614,8 +693,10 @@ static std::string isolated(const std::function<void()>& f, std::string& err) {
     return fmt("exit status %d", WEXITSTATUS(status));
 }
 
+// copied: 0 = apply on the element the repetition was set on; 1 = on an Ops::T::copy_from copy of it, the source
+// destroyed first; 2 = on a copy of a copy, the intermediate copy destroyed, the source kept and compared
 template <class Ops>
-static void apply_body(int ri, int prefill, int variant) {
+static void apply_body(int ri, int prefill, int variant, int copied) {
     typedef typename Ops::T T;
     const RepSpec& s = ALPHA[ri];
     SpecInfo inf = info_of(s);
@@ -624,11 +705,34 @@ static void apply_body(int ri, int prefill, int variant) {
     tags.push_back({"element", jstr(Ops::name())});
     tags.push_back({"prefilled", jbool(prefill)});
     tags.push_back({"history", jstr(Ops::variant_name(variant))});
-    std::string rp = fmt("sub=apply rep=%d el=%s prefill=%d var=%d", ri, Ops::name(), prefill, variant);
+    tags.push_back({"copied", jstr(COPIED_NAME[copied])});
+    std::string rp = fmt("sub=apply rep=%d el=%s prefill=%d var=%d cp=%d", ri, Ops::name(), prefill, variant, copied);
     T* e0 = Ops::build(variant);  // pristine twin (same construction and transform history) without repetition
     T* e = Ops::build(variant);
     make_rep(s, Ops::rep(*e));
-    std::string cs = jobj({{"element", jstr(Ops::name())}, {"history_before_apply", jstr(Ops::variant_name(variant))}, {"repetition", spec_json(s)}, {"denoted_set", vecs_json(own)}, {"result_array_prefilled_with_the_element_itself", jbool(prefill)}, {"original", Ops::dumps(*e)}});
+    T* src = NULL;  // copied == 2: the element the repetition was set on, kept alive next to the copy of its copy
+    std::string src_dump;
+    if (copied) {
+        src_dump = Ops::dumps(*e);
+        T* c1 = (T*)allocate_clear(sizeof(T));
+        c1->copy_from(*e);
+        bool src_same = Ops::dumps(*e) == src_dump;
+        if (copied == 1) {
+            Ops::destroy(e);
+            e = c1;
+        } else {
+            T* c2 = (T*)allocate_clear(sizeof(T));
+            c2->copy_from(*c1);
+            Ops::destroy(c1);
+            src_same = src_same && Ops::dumps(*e) == src_dump;
+            src = e;
+            e = c2;
+        }
+        if (!src_same)
+            R->violation("apply", "copy-changed-source", tags, jobj({{"element", jstr(Ops::name())}, {"repetition", spec_json(s)}}), "copy_from (or destroying the copy) changed the source element", rp);
+        R->count("apply_cases_on_copied_element");
+    }
+    std::string cs = jobj({{"element", jstr(Ops::name())}, {"history_before_apply", jstr(Ops::variant_name(variant))}, {"element_obtained", jstr(COPIED_NAME[copied])}, {"repetition", spec_json(s)}, {"denoted_set", vecs_json(own)}, {"result_array_prefilled_with_the_element_itself", jbool(prefill)}, {"original", Ops::dumps(*e)}});
     auto fail = [&](const std::string& cls, const std::string& detail) { R->violation("apply", cls, tags, cs, detail, rp); };
     Array<T*> result = {};
     if (prefill) result.append(e);
@@ -724,12 +828,19 @@ static void apply_body(int ri, int prefill, int variant) {
         Ops::destroy(e);
     }
     Ops::destroy(e0);
+    if (src) {
+        if (Ops::dumps(*src) != src_dump) fail("apply-on-copy-changed-source", "the element the repetition was set on changed when the repetition of its copy's copy was applied");
+        Ops::destroy(src);
+    }
 }
 
-struct ApplyFn { const char* name; int variant; const char* history; void (*body)(int, int, int); };
+struct ApplyFn { const char* name; int variant; const char* history; int copied; void (*body)(int, int, int, int); };
 static std::vector<ApplyFn> APPLY;
 template <class Ops>
-static void add_apply() { for (int v = 0; v < Ops::nvariants(); v++) APPLY.push_back({Ops::name(), v, Ops::variant_name(v), apply_body<Ops>}); }
+static void add_apply() {
+    for (int v = 0; v < Ops::nvariants(); v++) APPLY.push_back({Ops::name(), v, Ops::variant_name(v), 0, apply_body<Ops>});
+    for (int cp = 1; cp <= 2; cp++) APPLY.push_back({Ops::name(), 0, Ops::variant_name(0), cp, apply_body<Ops>});  // copied first (fresh elements)
+}
 static void build_apply_table() {
     add_apply<PolyOps>(); add_apply<FlexOps>(); add_apply<RobustOps>(); add_apply<LabelOps>(); add_apply<RefOps<false>>(); add_apply<RefOps<true>>();
 }
@@ -745,13 +856,14 @@ static void report_crash(int ri, int k, int prefill, const std::string& what, co
     tags.push_back({"element", jstr(el)});
     tags.push_back({"prefilled", jbool(prefill)});
     tags.push_back({"history", jstr(APPLY[k].history)});
+    tags.push_back({"copied", jstr(COPIED_NAME[APPLY[k].copied])});
     if (!emit) {  // same tag values already reported from this worker: count only
         R->count("violations_total");
         R->count(std::string("viol:apply/crash-") + el);
         return;
     }
     R->violation("apply", std::string("crash-") + el, tags, jobj({{"element", jstr(el)}, {"history_before_apply", jstr(APPLY[k].history)}, {"repetition", spec_json(s)}, {"denoted_set", jstr("empty (zero count)")}, {"result_array_prefilled_with_the_element_itself", jbool(prefill)}}),
-                 std::string(el) + "::apply_repetition did not return: " + what + (err.empty() ? "" : "\n" + err), fmt("sub=apply rep=%d el=%s prefill=%d var=%d", ri, el, prefill, APPLY[k].variant));
+                 std::string(el) + "::apply_repetition did not return: " + what + (err.empty() ? "" : "\n" + err), fmt("sub=apply rep=%d el=%s prefill=%d var=%d cp=%d", ri, el, prefill, APPLY[k].variant, APPLY[k].copied));
 }
 // Zero-count lattices are suspected to crash (DESIGN.md 0.1 D15).  So that every (element, repetition,
 // prefill) case is attributed exactly, they never run in the worker itself:
@@ -774,7 +886,7 @@ static void grouped_child(int ri, const std::vector<std::pair<int, int>>& cases,
         JB_ARMED = 1;
         int sig = sigsetjmp(JB, 1);
         if (sig == 0) {
-            APPLY[cases[i].first].body(ri, cases[i].second, APPLY[cases[i].first].variant);
+            APPLY[cases[i].first].body(ri, cases[i].second, APPLY[cases[i].first].variant, APPLY[cases[i].first].copied);
             JB_ARMED = 0;
         } else {
             JB_ARMED = 0;
@@ -787,14 +899,14 @@ static void grouped_child(int ri, const std::vector<std::pair<int, int>>& cases,
 }
 // result array pre-filled with the element itself: fresh elements only (the transform history does not
 // interact with the result array)
-static void apply_all(int ri, const std::string& only_el, int only_prefill, int only_var = -1) {
+static void apply_all(int ri, const std::string& only_el, int only_prefill, int only_var = -1, int only_cp = -1) {
     SpecInfo inf = info_of(ALPHA[ri]);
     std::vector<std::pair<int, int>> cases, grouped;
     for (int prefill = 0; prefill < 2; prefill++)
         for (int k = 0; k < (int)APPLY.size(); k++)
-            if ((only_prefill < 0 || prefill == only_prefill) && (only_el.empty() || only_el == APPLY[k].name) && (only_var < 0 || only_var == APPLY[k].variant) && !(prefill && APPLY[k].variant)) cases.push_back({k, prefill});
+            if ((only_prefill < 0 || prefill == only_prefill) && (only_el.empty() || only_el == APPLY[k].name) && (only_var < 0 || only_var == APPLY[k].variant) && (only_cp < 0 || only_cp == APPLY[k].copied) && !(prefill && (APPLY[k].variant || APPLY[k].copied))) cases.push_back({k, prefill});
     if (!inf.zero_count) {
-        for (auto& c : cases) APPLY[c.first].body(ri, c.second, APPLY[c.first].variant);
+        for (auto& c : cases) APPLY[c.first].body(ri, c.second, APPLY[c.first].variant, APPLY[c.first].copied);
         return;
     }
     // per worker process: element kinds whose first zero-count case has run alone under the sanitizer's
@@ -804,7 +916,7 @@ static void apply_all(int ri, const std::string& only_el, int only_prefill, int 
         if (!R->replaying() && slow_done.count(APPLY[c.first].name)) { grouped.push_back(c); continue; }
         slow_done.insert(APPLY[c.first].name);
         std::string err;
-        std::string what = isolated([&] { APPLY[c.first].body(ri, c.second, APPLY[c.first].variant); }, err);
+        std::string what = isolated([&] { APPLY[c.first].body(ri, c.second, APPLY[c.first].variant, APPLY[c.first].copied); }, err);
         if (!what.empty()) report_crash(ri, c.first, c.second, what, err);
     }
     if (grouped.empty()) return;
@@ -866,9 +978,9 @@ int main(int argc, char** argv) {
         int ri = atoi(run.rarg("rep").c_str());
         if (ri < 0 || ri >= (int)ALPHA.size()) { run.internal_error("replay: repetition index out of range for this tier"); return run.finish(); }
         if (sub == "set") check_set(ri);
-        else if (sub == "transform") check_transform(ri, run.rarg("t").empty() ? -1 : atoi(run.rarg("t").c_str()));
-        else if (sub == "apply") apply_all(ri, run.rarg("el"), run.rarg("prefill").empty() ? -1 : atoi(run.rarg("prefill").c_str()), run.rarg("var").empty() ? -1 : atoi(run.rarg("var").c_str()));
-        else { check_set(ri); check_transform(ri, -1); apply_all(ri, "", -1); }
+        else if (sub == "transform") check_transform(ri, run.rarg("t").empty() ? -1 : atoi(run.rarg("t").c_str()), run.rarg("cp") == "1");
+        else if (sub == "apply") apply_all(ri, run.rarg("el"), run.rarg("prefill").empty() ? -1 : atoi(run.rarg("prefill").c_str()), run.rarg("var").empty() ? -1 : atoi(run.rarg("var").c_str()), run.rarg("cp").empty() ? -1 : atoi(run.rarg("cp").c_str()));
+        else { check_set(ri); check_transform(ri, -1); check_transform(ri, -1, true); apply_all(ri, "", -1); }
         return run.finish();
     }
     run.note("alphabet: " + alphabet_desc(T) + fmt(" (%zu repetitions)", ALPHA.size()));
@@ -883,6 +995,7 @@ int main(int argc, char** argv) {
         if (inf.negative) R->count("repetitions_with_negative_components");
         check_set((int)i);
         check_transform((int)i, -1);
+        check_transform((int)i, -1, true);
         apply_all((int)i, "", -1);
     };
     bool ok = parallel_for(run, n, body, [&](int64_t i) { return jobj({{"repetition", spec_json(ALPHA[i])}}); }, [&](int64_t i) { return fmt("sub=all rep=%lld", (long long)i); }, PFOptions{120, "enum", true});
@@ -890,7 +1003,9 @@ int main(int argc, char** argv) {
     run.sample("apply", jobj({{"repetition", spec_json(ALPHA[ALPHA.size() / 2])}, {"elements", jstr("polygon, flexpath, robustpath, label, reference, reference_by_name x {fresh, after each transform history} ; fresh ones x result array empty / holding the element")}}));
     run.sample("transform", jobj({{"repetition", spec_json(ALPHA[ALPHA.size() / 3])}, {"transforms", jstr("m in {1,2,-1} x refl in {F,T} x rot in {0,pi/2,0.6}")}}));
     note_bezier_ctrl_sharing();
-    run.bound("enum", "every repetition of the alphabet {" + alphabet_desc(T) + "} x {get_count, get_offsets, get_extrema (result empty / pre-filled)} x 18 transforms x apply_repetition on 6 element kinds, each fresh and after every transform history of its list (18 element states: polygon rotate / mirror; flexpath mirror / scale 2.5 with scale_width=false / transform(2,refl,0.3,(1,1)); robustpath the same plus scale 0.5 with scale_width=true; label, reference, reference_by_name transform with reflection), fresh elements also with the result array already holding the element", ok,
-              n * (1 + 18 + (int64_t)APPLY.size() + 6));
+    run.bound("enum", "every repetition of the alphabet {" + alphabet_desc(T) + "} x {get_count, get_offsets, get_extrema (result empty / pre-filled)} judged on 9 derivations of the repetition (direct; Repetition::copy_from copy; copy of a copy; source after its copies were cleared; "
+              "repetition of a polygon / flexpath / robustpath / label / reference copied with copy_from, source destroyed) x 18 transforms (direct and on a copy whose source was cleared) x apply_repetition on 6 element kinds: fresh and after every transform history of its "
+              "list (18 element states), fresh ones also with the result array already holding the element, and fresh ones copied first (copy_from with the source destroyed; copy of a copy with the source kept and compared)", ok,
+              n * (9 + 36 + (int64_t)APPLY.size() + 6));
     return run.finish();
 }
